@@ -4,6 +4,8 @@ import LMV.Driver.Util
 namespace LMV.Driver.C05
 open LMV LMV.Encode LMV.Driver
 
+def ops : List String := ["enc"]
+
 def alphabetOf (s : String) : Alphabet := if s == "dna" then dna else protein
 
 /-- which model a backend token selects; the public entry points (`fromstr`) go through the
